@@ -14,8 +14,8 @@ use crate::rng::{fnv, fnv_add, Rng};
 use crate::seams::{sim_process, ClockPolicy, SimOutcome, SimStats};
 
 pub const BUDGET_NS: u64 = 500_000_000;
-const ACTION_CALL_CAP: usize = 300_000;
-const PARAM_MAGIC: u64 = 0xC08_C08;
+pub const ACTION_CALL_CAP: usize = 300_000;
+pub const PARAM_MAGIC: u64 = 0xC08_C08;
 
 #[derive(Serialize, Deserialize, Clone, Debug, PartialEq)]
 pub struct RScenario {
@@ -33,6 +33,9 @@ pub struct RScenario {
     /// clock reads of the fault-free run this variant was derived from (informational)
     #[serde(default)]
     pub base_reads: u64,
+    /// lexeme i is a real zero-width lexeme
+    #[serde(default)]
+    pub zero_width: Vec<bool>,
 }
 
 #[derive(Clone, Debug, Serialize, Deserialize)]
@@ -150,6 +153,8 @@ pub struct ActRun {
     pub value: Option<usize>,
     pub errors: Vec<RealErr>,
     pub recs: Vec<Rec>,
+    /// argument-passing anomalies noticed by the recorder itself (class, detail)
+    pub notes: Vec<(String, String)>,
 }
 
 fn real_parse_map(b: &Built, lexer: &StubLexer, costs: &[u8], hash_seed: u64, clock: &ClockPolicy) -> (SimOutcome<MapRun>, SimStats) {
@@ -215,7 +220,7 @@ fn real_parse_actions(b: &Built, lexer: &StubLexer, costs: &[u8], hash_seed: u64
         let errors = conv_errs(errs);
         drop(actions);
         drop(closures);
-        ActRun { value: v, errors, recs: recs.into_inner() }
+        ActRun { value: v, errors, recs: recs.into_inner(), notes: vec![] }
     })
 }
 
@@ -272,6 +277,9 @@ fn scenario_digest(sc: &RScenario) -> u64 {
         h = fnv_add(h, k.as_bytes());
         h = fnv_add(h, &[*v]);
     }
+    for z in &sc.zero_width {
+        h = fnv_add(h, &[*z as u8 + 7]);
+    }
     h = fnv_add(h, &sc.hash_seed.to_le_bytes());
     h = fnv_add(h, &sc.clock.tick_ns.to_le_bytes());
     for (k, d) in &sc.clock.jumps {
@@ -305,12 +313,17 @@ impl Judge<'_> {
     }
 }
 
-pub struct ExecOpts {
+pub type ActRunner<'a> = &'a (dyn Fn(&Built, &StubLexer, &[u8], u64, &ClockPolicy) -> (SimOutcome<ActRun>, SimStats) + Sync);
+
+pub struct ExecOpts<'a> {
     pub caps: SearchCaps,
+    /// replaces `RTParserBuilder::parse_actions` with recording closures by another way of
+    /// running actions (gen_c08: the parser generated at compile time, with its wrappers)
+    pub act_runner: Option<ActRunner<'a>>,
 }
-impl Default for ExecOpts {
+impl Default for ExecOpts<'_> {
     fn default() -> Self {
-        ExecOpts { caps: SearchCaps::default() }
+        ExecOpts { caps: SearchCaps::default(), act_runner: None }
     }
 }
 
@@ -331,7 +344,7 @@ pub fn execute(sc: &RScenario, opts: &ExecOpts) -> RunReport {
     let ctx = Ctx::new(grm, &b.st, &prep.toks, &prep.costs);
     let mut ss = Stacks::new();
     let start_stack = ss.from_slice(&[b.st.start_state().0]);
-    let lexer = StubLexer::new(&prep.toks, &sc.gaps);
+    let lexer = StubLexer::new(&prep.toks, &sc.gaps, &sc.zero_width);
     let n = prep.toks.len();
     let gdig = fnv(sc.grammar.as_bytes());
 
@@ -350,8 +363,25 @@ pub fn execute(sc: &RScenario, opts: &ExecOpts) -> RunReport {
     }
 
     // ---- real runs ---------------------------------------------------------------------------
-    let (mo, mstats) = real_parse_map(b, &lexer, &prep.costs, sc.hash_seed, &sc.clock);
-    let (ao, astats) = real_parse_actions(b, &lexer, &prep.costs, sc.hash_seed, &sc.clock, RecoveryKind::CPCTPlus);
+    let (ao, astats) = match opts.act_runner {
+        Some(r) => r(b, &lexer, &prep.costs, sc.hash_seed, &sc.clock),
+        None => real_parse_actions(b, &lexer, &prep.costs, sc.hash_seed, &sc.clock, RecoveryKind::CPCTPlus),
+    };
+    let (mo, mstats) = if opts.act_runner.is_some() {
+        // A differently built parser (the generated one) creates a different number of
+        // RandomStates before recovery runs, so it may legitimately choose another of the equally
+        // ranked repairs than `parse_map` would: it is judged on its own, with the tree its action
+        // calls build standing in for the generic tree.
+        match &ao {
+            SimOutcome::Ok(a) => {
+                let value = a.value.filter(|v| *v < a.recs.len()).map(|v| build_tree(&a.recs, v));
+                (SimOutcome::Ok(MapRun { value, errors: a.errors.clone() }), astats.clone())
+            }
+            SimOutcome::Panic(m) => (SimOutcome::Panic(m.clone()), astats.clone()),
+        }
+    } else {
+        real_parse_map(b, &lexer, &prep.costs, sc.hash_seed, &sc.clock)
+    };
     rep.clock_reads = mstats.clock_reads;
     rep.elapsed_ns = mstats.elapsed_ns;
     let mut lh = fnv(&mstats.clock_reads.to_le_bytes());
@@ -822,7 +852,7 @@ pub fn execute(sc: &RScenario, opts: &ExecOpts) -> RunReport {
     check_c08(&mut j, grm, &act, value.as_ref(), ref_tree.as_ref(), ref_forest.as_ref(), walk_ok);
 
     // ---- the same input without error recovery (C07 c/d/e, C08 on the prefix) -----------------
-    if !errors.is_empty() && sc.clock.jumps.is_empty() && sc.hash_seed % 3 == 0 {
+    if !errors.is_empty() && sc.clock.jumps.is_empty() && sc.hash_seed % 3 == 0 && opts.act_runner.is_none() {
         let (no, _) = real_parse_actions(b, &lexer, &prep.costs, sc.hash_seed, &sc.clock, RecoveryKind::None);
         match no {
             SimOutcome::Panic(msg) => j.viol("C07", "C07-a-panic", format!("parse_actions with RecoveryKind::None panicked: {msg}")),
@@ -885,8 +915,34 @@ fn classify_panic(j: &mut Judge, prep: &Prepared, sc: &RScenario, msg: &str, whi
     }
 }
 
+/// The tree a record (action call) and the calls it consumed build.
+pub fn build_tree(recs: &[Rec], i: usize) -> Tree {
+    let r = &recs[i];
+    Tree::Nonterm {
+        ridx: r.ridx,
+        pidx: Some(r.pidx),
+        kids: r
+            .args
+            .iter()
+            .map(|a| match a {
+                Arg::Lex(l) => Tree::Term { tok: l.tok_id, start: l.start, len: l.len, faulty: l.faulty },
+                Arg::Val(v) => {
+                    if *v < i {
+                        build_tree(recs, *v)
+                    } else {
+                        Tree::Nonterm { ridx: u16::MAX, pidx: None, kids: vec![] }
+                    }
+                }
+            })
+            .collect(),
+    }
+}
+
 fn check_c08(j: &mut Judge, grm: &cfgrammar::yacc::YaccGrammar<u16>, act: &ActRun, map_value: Option<&Tree>, ref_tree: Option<&Tree>, ref_forest: Option<&Vec<Tree>>, walk_ok: bool) {
     let recs = &act.recs;
+    for (class, detail) in &act.notes {
+        j.viol("C08", class, detail.clone());
+    }
     // c: per-record checks
     let mut consumed = vec![0u32; recs.len()];
     for (i, r) in recs.iter().enumerate() {
@@ -929,27 +985,6 @@ fn check_c08(j: &mut Judge, grm: &cfgrammar::yacc::YaccGrammar<u16>, act: &ActRu
         }
     }
     // Build the forest of records.
-    fn build(recs: &[Rec], i: usize) -> Tree {
-        let r = &recs[i];
-        Tree::Nonterm {
-            ridx: r.ridx,
-            pidx: Some(r.pidx),
-            kids: r
-                .args
-                .iter()
-                .map(|a| match a {
-                    Arg::Lex(l) => Tree::Term { tok: l.tok_id, start: l.start, len: l.len, faulty: l.faulty },
-                    Arg::Val(v) => {
-                        if *v < i {
-                            build(recs, *v)
-                        } else {
-                            Tree::Nonterm { ridx: u16::MAX, pidx: None, kids: vec![] }
-                        }
-                    }
-                })
-                .collect(),
-        }
-    }
     // b: post-order numbering
     fn postorder(recs: &[Rec], i: usize, out: &mut Vec<usize>) {
         for a in &recs[i].args {
@@ -975,7 +1010,7 @@ fn check_c08(j: &mut Judge, grm: &cfgrammar::yacc::YaccGrammar<u16>, act: &ActRu
                 j.viol("C08", "C08-a-calls-vs-tree", format!("value is the result of call {root} but the calls not consumed by another call are {:?} ({} calls in total)", &roots[..roots.len().min(20)], recs.len()));
             }
             if root < recs.len() {
-                let t = build(recs, root);
+                let t = build_tree(recs, root);
                 if let Some(mv) = map_value {
                     if !t.same_shape(mv) {
                         j.viol("C08", "C08-e-actions-vs-generic-tree", format!("tree built through actions {} differs from parse_map's tree {}", t.pp(), mv.pp()));
@@ -1003,7 +1038,7 @@ fn check_c08(j: &mut Judge, grm: &cfgrammar::yacc::YaccGrammar<u16>, act: &ActRu
             if map_value.is_some() {
                 j.viol("C08", "C08-e-actions-vs-generic-tree", "parse_map returned a value but parse_actions did not".into());
             }
-            let forest: Vec<Tree> = roots.iter().map(|r| build(recs, *r)).collect();
+            let forest: Vec<Tree> = roots.iter().map(|r| build_tree(recs, *r)).collect();
             if let Some(rf) = ref_forest {
                 let rf_nt: Vec<&Tree> = rf.iter().filter(|t| matches!(t, Tree::Nonterm { .. })).collect();
                 let same = rf_nt.len() == forest.len() && rf_nt.iter().zip(&forest).all(|(a, b)| *a == b);
@@ -1144,6 +1179,11 @@ pub fn gen_base(r: &mut Rng, gp: &GenParams) -> Option<RScenario> {
     } else {
         ("random".to_string(), gram::gen_random(r))
     };
+    gen_with_grammar(r, origin, grammar, gp, false)
+}
+
+/// Input, costs, hash seed and clock for a given grammar.
+pub fn gen_with_grammar(r: &mut Rng, origin: String, grammar: String, gp: &GenParams, unit_costs: bool) -> Option<RScenario> {
     let hash_seed = r.next();
     let built = match sim_process(hash_seed, None, || gram::build(&grammar)).0 {
         SimOutcome::Ok(Ok(b)) => b,
@@ -1199,7 +1239,7 @@ pub fn gen_base(r: &mut Rng, gp: &GenParams) -> Option<RScenario> {
     let gaps: Vec<u8> = toks.iter().map(|_| if r.chance(60) { 0 } else { r.below(3) as u8 }).collect();
     // costs
     let mut costs = BTreeMap::new();
-    let cclass = r.below(100);
+    let cclass = if unit_costs { 0 } else { r.below(100) };
     let mut extreme = false;
     for t in &real_toks {
         let name = grm.token_name(TIdx(*t)).unwrap().to_string();
@@ -1222,6 +1262,15 @@ pub fn gen_base(r: &mut Rng, gp: &GenParams) -> Option<RScenario> {
             costs.insert(name, c);
         }
     }
+    let mut zero_width = vec![];
+    if r.chance(10) {
+        let mut prev = false;
+        for _ in &toks {
+            let z = !prev && r.chance(20);
+            zero_width.push(z);
+            prev = z;
+        }
+    }
     let tick = if extreme || gram::has_unproductive(grm) { 250_000 } else { 50_000 };
     let tokens = toks.iter().map(|t| grm.token_name(TIdx(*t)).unwrap().to_string()).collect();
     Some(RScenario {
@@ -1234,6 +1283,7 @@ pub fn gen_base(r: &mut Rng, gp: &GenParams) -> Option<RScenario> {
         clock: ClockPolicy { tick_ns: tick, jumps: vec![] },
         policy_class: "tick".into(),
         base_reads: 0,
+        zero_width,
     })
 }
 
@@ -1341,6 +1391,10 @@ pub fn shrink(sc: &RScenario, prop: &str, class: &str, opts: &ExecOpts, budget_e
                 let end = (i + chunk).min(c.tokens.len());
                 c.tokens.drain(i..end);
                 c.gaps.drain(i..end.min(c.gaps.len()));
+                if !c.zero_width.is_empty() {
+                    let zl = c.zero_width.len();
+                    c.zero_width.drain(i.min(zl)..end.min(zl));
+                }
                 // clock jump indices may go stale: keep as they are
                 if try_(c, &mut cur, &mut execs) {
                     progress = true;
